@@ -1,6 +1,7 @@
 //! Driver for the security upgrades: noise / plaintext / pnet byte streams (C17, C19), plaintext
 //! exchange variants and PSK key files (C19), noise handshake under an on-path adversary (C16),
 //! TLS certificates (C18).
+mod noisehs;
 mod psk;
 mod ptx;
 mod stream;
@@ -12,6 +13,7 @@ fn main() {
         "stream" => stream::main(&a),
         "ptx" => ptx::main(&a),
         "psk" => psk::main(&a),
+        "noisehs" => noisehs::main(&a),
         m => {
             eprintln!("unknown mode {m}");
             std::process::exit(2)
